@@ -93,6 +93,8 @@ type Exec struct {
 	depth       int
 	nowCount    int
 	lastNow     *Node
+	// a deadlock after this marker is a listed known finding, not a new violation
+	knownDeadlockID string
 	lastNowInit bool
 	uniq        map[string]*Loc // unique.Make canonical objects
 	hidden      map[*Loc]Value  // hidden state for modelled library objects (atomic.Value, sync.Map, ...)
